@@ -161,6 +161,45 @@ func TestCheck(t *testing.T) {
 		})
 	}
 
+	// --- positions reached by ONE played move from generated positions: every double push (the
+	// e.p. bookkeeping happens in MakeMove, not in the loader) and a sample of the other moves
+	nstep := r.N(120000, 1200000)
+	ev.Parallel(nstep/chunk, func(wk, i int) {
+		w := ws[wk]
+		rng := r.RNG("c01-onestep", i)
+		for k := 0; k < chunk; k++ {
+			var p ref.Pos
+			ok := false
+			if k%3 != 0 {
+				p, ok = gen.PrePush(rng)
+			}
+			if !ok {
+				p = gen.AnyPos(rng)
+			}
+			b, err := board.FromFEN(p.FEN())
+			if err != nil {
+				continue
+			}
+			for _, m := range p.Legal() {
+				v := p.Sq[m.From()]
+				dbl := (v == ref.P || v == -ref.P) && (m.To()-m.From() == 16 || m.From()-m.To() == 16)
+				if !dbl && rng.IntN(8) != 0 {
+					continue
+				}
+				nx := p.Make(m)
+				nx = nx.Normalised()
+				rv := b.MakeMove(move.Move(m))
+				checkPos(r, w, &nx, b, witness{Kind: "reached", Start: p.FEN(), Moves: []string{m.String()}, FEN: nx.FEN()})
+				b.UndoMove(move.Move(m), rv)
+				w.lc.C["positions_reached_by_one_move"]++
+				if dbl {
+					w.lc.C["positions_reached_by_double_push"]++
+				}
+			}
+		}
+		r.Merge(w.lc)
+	})
+
 	// --- reached positions: the engine board is carried along by MakeMove, never reloaded;
 	// after every move the carried board and a freshly loaded one are both compared.
 	corpus := gen.Corpus()
@@ -280,7 +319,7 @@ func TestCheck(t *testing.T) {
 		}
 	}
 	r.Finish("in_check", "double_check", "with_castling", "with_en_passant", "with_promotion", "with_underpromotion", "with_pinned_piece",
-		"no_legal_move", "positions_reached", "positions_reloaded", "perft_compared", "uci_perft_compared", "positions_small_exhaustive", "positions_parsed_into_reused_board")
+		"no_legal_move", "positions_reached", "positions_reloaded", "perft_compared", "uci_perft_compared", "positions_small_exhaustive", "positions_parsed_into_reused_board", "positions_reached_by_double_push")
 }
 
 func replay(t *testing.T, r *ev.Run) {
